@@ -224,6 +224,25 @@ func vxMeasure(f func()) uint64 {
 	return m1.TotalAlloc - m0.TotalAlloc
 }
 
+// vxMeasureOver runs f and reports its allocation if it exceeds bound; an excess is confirmed by
+// measuring a second run (an allocation driven by the input is repeatable, a burst from the runtime or
+// from lazily initialised tables of the standard library is not - such bursts of ~2 MB were observed
+// about once per 10^5 cases in long runs).
+func vxMeasureOver(bound uint64, f func()) (uint64, bool) {
+	a := vxMeasure(f)
+	if a <= bound {
+		return a, false
+	}
+	b := vxMeasure(f)
+	if b <= bound {
+		return b, false
+	}
+	if b < a {
+		a = b
+	}
+	return a, true
+}
+
 func TestVxC05Frames(t *testing.T) {
 	vx.Check(t, vx.Prop{
 		ID: "C05", Part: "TestVxC05Frames",
@@ -251,7 +270,13 @@ func TestVxC05Frames(t *testing.T) {
 			k.Class("mut=" + c.Mut.Kind)
 			k.Class("kind=" + r.Kind)
 			var escaped, stage string
-			alloc := vxMeasure(func() {
+			bound := vxAllocBound(len(frameBytes))
+			if h, _, err := cqlspec.ParseHeader(frameBytes); err == nil && h.Length > 0 {
+				// the body buffer is sized by the length the header announces (the driver caps it at
+				// 256 MiB): allocation proportional to the *announced* frame is accepted, see DESIGN.md
+				bound += uint64(h.Length)
+			}
+			alloc, over := vxMeasureOver(bound, func() {
 				escaped, stage = vxParseAndIterate(frameBytes, r.Version, nil, c.Consumer, len(r.Rows)+3)
 			})
 			k.Class("stage=" + stage)
@@ -261,13 +286,7 @@ func TestVxC05Frames(t *testing.T) {
 			if escaped != "" {
 				return fmt.Errorf("%s v%d frame (%d bytes, mutation %+v) at stage %s: %s", r.Kind, r.Version, len(frameBytes), c.Mut, stage, escaped)
 			}
-			bound := vxAllocBound(len(frameBytes))
-			if h, _, err := cqlspec.ParseHeader(frameBytes); err == nil && h.Length > 0 {
-				// the body buffer is sized by the length the header announces (the driver caps it at
-				// 256 MiB): allocation proportional to the *announced* frame is accepted, see DESIGN.md
-				bound += uint64(h.Length)
-			}
-			if alloc > bound {
+			if over {
 				return fmt.Errorf("%s v%d frame of %d bytes (mutation %+v) made the driver allocate %d bytes (bound %d) at stage %s", r.Kind, r.Version, len(frameBytes), c.Mut, alloc, bound, stage)
 			}
 			return nil
@@ -352,13 +371,13 @@ func TestVxC05Unmarshal(t *testing.T) {
 			targets := []reflect.Type{def, reflect.PtrTo(def), vxPick(c.Type, []cqlspec.Value{c.Value}, ch, vxDst, false)}
 			for _, tt := range targets {
 				var pan interface{}
-				alloc := vxMeasure(func() {
+				alloc, over := vxMeasureOver(vxAllocBound(len(data)), func() {
 					_, pan = vxSafeUnmarshal(info, append([]byte{}, data...), reflect.New(tt).Interface())
 				})
 				if pan != nil {
 					return fmt.Errorf("Unmarshal(%v, %x, *%v) panicked: %v", c.Type, data, tt, pan)
 				}
-				if alloc > vxAllocBound(len(data)) {
+				if over {
 					return fmt.Errorf("Unmarshal(%v, %x (%d bytes), *%v) allocated %d bytes (bound %d)", c.Type, data[:vxMinInt(len(data), 40)], len(data), tt, alloc, vxAllocBound(len(data)))
 				}
 			}
